@@ -331,7 +331,19 @@ def r5(ctx: Context, sites) -> None:
         if ss:
             txt = ast.unparse(o.node)
             per_key = any(isinstance(n, ast.For) and "key_serialized_arguments.items()" in ast.unparse(n.iter) and "JOIN" in ast.unparse(n) and "arg_key = ?" in ast.unparse(n) and "arg_value = ?" in ast.unparse(n) for n in walk_no_nested(o.node))
-            ctx.add("R5", f"{o.qualname}::one-join-per-key-pair", per_key, o.loc(), "" if per_key else "not every key/value pair constrains the result (one inner JOIN per pair on arg_key AND arg_value)")
+            # equivalent relational-division form: ONE join with OR-ed (key = ? AND value = ?) pairs,
+            # GROUP BY invocation, HAVING COUNT(DISTINCT arg_key) = number of pairs (distinct KEYS, since
+            # two keys may carry the same value and one key never carries two)
+            strs = " ".join(n.value for n in ast.walk(o.node) if isinstance(n, ast.Constant) and isinstance(n.value, str)).upper()
+            flat = " ".join(strs.split())
+            division = ("ARG_KEY = ? AND" in flat and "ARG_VALUE = ?" in flat and " OR " in f" {flat} " and "GROUP BY" in flat and "INVOCATION_ID" in flat.split("GROUP BY", 1)[-1][:40]
+                        and "HAVING COUNT(DISTINCT" in flat and flat.split("HAVING COUNT(DISTINCT", 1)[1].split(")", 1)[0].strip().endswith("ARG_KEY")
+                        and any(isinstance(c, ast.Call) and call_name(c) == "len" and c.args and "key_serialized_arguments" in ast.unparse(c.args[0]) for c in ast.walk(o.node)))
+            okj = per_key or division
+            why = "not every key/value pair constrains the result (one inner JOIN per pair on arg_key AND arg_value)"
+            if not okj and "HAVING COUNT(" in flat:
+                why = "the AND-match counts something else than DISTINCT arg_key per invocation: two key arguments with equal values (or duplicate rows) make the count differ from the number of pairs, the REGISTERED/RUNNING invocation is not found and a duplicate is created"
+            ctx.add("R5", f"{o.qualname}::one-join-per-key-pair", okj, o.loc(), "" if okj else why)
             consts = [n.value for n in ast.walk(o.node) if isinstance(n, ast.Constant) and isinstance(n.value, str)]
             and_join = any(isinstance(n, ast.Call) and call_name(n) == "join" and isinstance(n.func, ast.Attribute) and isinstance(n.func.value, ast.Constant) and n.func.value.value.strip().upper() == "AND" for n in ast.walk(o.node))
             ok = any("task_id_key = ?" in c_ for c_ in consts) and and_join and any("status IN (" in c_ for c_ in consts)
